@@ -41,7 +41,7 @@ type AcceptRec struct {
 	Ledger   string
 	IDs      []uint64 // the logs of this ledger in the call, in call order (a call can carry one log twice)
 	Refused  []bool   // per position: the exporter refused this item individually (per-item error)
-	Acked    bool            // the call as a whole succeeded (no global error)
+	Acked    bool     // the call as a whole succeeded (no global error)
 	Epoch    int
 }
 
